@@ -636,6 +636,57 @@ def _is_quoted(v: Any, x: SObj) -> bool:
     return m.kind == "OP" and isinstance(m.a, tuple) and m.a[0] == "str.replace" and m.a[1] == '"' and m.a[2] == '\\"' and len(m.a) == 3
 
 
+def _derives_from(v: Any, src: Any, depth: int = 0, seen: Any = None) -> bool:
+    """Is `src` among the values that v was computed from (comprehension bases, splats, call arguments)?"""
+    seen = set() if seen is None else seen
+    if v is src:
+        return True
+    if depth > 10 or id(v) in seen or isinstance(v, (str, int, float, bool, type(None))):
+        return False
+    seen.add(id(v))
+    subs: List[Any] = []
+    if isinstance(v, SSplat):
+        subs.append(v.value)
+    elif isinstance(v, SList):
+        subs += list(v.items or []) + [v.base, v.__dict__.get("entry")]
+    elif isinstance(v, SObj):
+        subs += [v.meta.get(k) for k in ("attr_of", "item_of", "copy_of", "list_of")] + [v.elem_of]
+        c = v.meta.get("call")
+        if isinstance(c, dict):
+            subs += [c.get("recv")] + list(c.get("args") or []) + list((c.get("kwargs") or {}).values())
+    elif isinstance(v, SNew):
+        subs += list(v.args) + list(v.star) + list(v.dstar) + list(v.kwargs.values())
+    elif isinstance(v, SDict):
+        subs += list(v.items.values()) + list(v.dstar or [])
+    elif isinstance(v, (list, tuple)):
+        subs += list(v)
+    elif isinstance(v, dict):
+        subs += list(v.values())
+    return any(_derives_from(x, src, depth + 1, seen) for x in subs if x is not None)
+
+
+def memoised_serialisers(ctx: Ctx) -> None:
+    """A function on the conversion path that is memoised with an untyped cache answers for True what it computed for 1 / 1.0
+    (cache keys compare with ==): the JavaScript written for a prop then depends on what was converted before."""
+    from .. import nondet
+    idx = nondet.index_functions(ctx.prog)
+    roots = [f"{JSX}:{q}" for q in ENTRIES if f"{JSX}:{q}" in idx]
+    ctx.require(len(roots) >= 1, "JSXTag conversion anchors vanished")
+    n = 0
+    for q in nondet.closure(ctx.prog, idx, roots):
+        f = idx[q]
+        if f.mod.name != JSX:
+            continue
+        n += 1
+        for d in nondet.cache_decorators(f):
+            if d.split("(")[0].split(".")[-1] == "cached_property" or "typed=True" in d.replace(" ", ""):
+                continue
+            ctx.fail("C20.js", q, f"@{d}", f"`{q}` on the conversion path is memoised with @{d}: equal-but-different arguments (True / 1 / 1.0, False / 0 / 0.0) share a "
+                     f"cache entry, so a boolean prop is written as a number (or the reverse) depending on what was converted earlier",
+                     witness="str(Foo(a=1.0)); str(Foo(a=True))  -> a: 1.0")
+    ctx.ok("C20.js", "no serialiser on the conversion path is memoised across equal-but-different arguments", functions=n)
+
+
 def init_allowlist(ctx: Ctx, I: Interp) -> None:
     prog = ctx.prog
     where = f"{JSX}:JSXTag.__init__"
@@ -672,6 +723,41 @@ def init_allowlist(ctx: Ctx, I: Interp) -> None:
                       witness="jsx_tag_create('Foo', allowedProps=['a'])(b=1)")
     ctx.check(n_reject >= 1, "C20.allow", "a keyword not in allowedProps raises", where, "no rejecting path", "props outside the declared allow-list are accepted",
               witness="jsx_tag_create('Foo', allowedProps=['a'])(b=1)")
+    # the props are the keywords that were checked: nothing taken from the positional arguments ends up in .attrs
+    def mk2(run: Any):
+        s = SNew(prog.jsx().classes["JSXTag"])
+        kw = SDict(name="kwargs", concrete=False)
+        ap = SObj("allowedProps", {"NONE", "LIST"})
+        pos = SObj(a.vararg.arg, {"TUPLE"})
+        run.__dict__["o"] = (s, kw, pos)
+        return ({a.args[0].arg: s, a.args[1].arg: SObj("_name", {"STR"}), a.vararg.arg: pos, "allowedProps": ap, a.kwarg.arg: kw}, s)
+
+    if a.vararg is not None:
+        bad: List[str] = []
+        n2 = 0
+        try:
+            leaves2 = I.run_function(JSX, "JSXTag.__init__", mk2, cfg)
+        except Unmodelled:
+            leaves2 = []
+        for l in leaves2:
+            s, kw, pos = l.run.__dict__["o"]
+            if l.kind == "raise":
+                continue
+            n2 += 1
+            at = s.attrs.get("attrs")
+            for e in l.effects:
+                tgt = e.key if e.kind == "call" else e.target
+                if e.kind in ("call", "mutcall", "basecall", "store_item") and at is not None and (tgt is at or e.target is at):
+                    vals = list(e.value) if isinstance(e.value, (list, tuple)) else [e.value]
+                    if any(_derives_from(x, pos) for x in vals):
+                        bad.append(f"{short(e.target) if e.kind == 'call' else e.kind} {e.key if e.kind != 'call' else ''}".strip())
+            if isinstance(at, SNew) and any(_derives_from(x, pos) for x in list(at.args) + list(at.star) + list(at.dstar) + list(at.kwargs.values())):
+                bad.append("constructor of .attrs")
+        if n2:
+            ctx.check(not bad, "C20.allow", "nothing from the positional arguments is stored as a prop (props are exactly the checked keywords)", where,
+                      f"props from positional arguments: {sorted(set(bad))}" if bad else "attrs built from **kwargs only",
+                      f"values taken from the positional arguments are written into .attrs ({sorted(set(bad))}): such props are never compared with allowedProps",
+                      witness="jsx_tag_create('Foo', allowedProps=['a'])({'b': 1})")
 
 
 def prop_names(ctx: Ctx, I: Interp) -> None:
@@ -793,6 +879,7 @@ def check(ctx: Ctx) -> None:
     serialize_table(ctx, I)
     render_table(ctx, I)
     init_allowlist(ctx, I)
+    memoised_serialisers(ctx)
     prop_names(ctx, I)
     # children however they were added: append / extend forward to the child list
     from .c14 import _delegates
